@@ -2,6 +2,7 @@
    Statements only; every proof is [exact <lemma>].  Model/Tags.v: an explicit heap of mutable maps, immutable
    contexts, the client free to mutate every map it passed in or read out, at any time. *)
 From FMP Require Import Base.Bytes Model.Msgpack Model.Tags Model.TagsCfg Proofs.TagsProofs Proofs.TagsCfgProofs.
+From FMP Require Import Model.CodecCfg Proofs.CodecCfgProofs.
 Open Scope Z_scope.
 
 (* neither the map passed in nor a map read out aliases a context's own tag storage: after ANY sequence of operations
@@ -56,6 +57,10 @@ Example ex_notify_ignores_selected : traveling_tags false true (Some [([97%N], V
 Proof. vm_compute. reflexivity. Qed.
 Example ex_none : traveling_tags true true None [] = None. Proof. vm_compute. reflexivity. Qed.
 
+(* the serving side: loadContext makes a map for this message, decodes into it and stores it under a context derived from Background (regenerated assignment census of message.go) *)
+Theorem C19_each_message_decodes_its_tags_into_its_own_map : cdf_tags_fresh_map codecfacts_now = true.
+Proof. exact codec_tags_fresh_map. Qed.
+
 Print Assumptions C19_stored_maps_private.
 Print Assumptions C19_old_contexts_unchanged.
 Print Assumptions C19_add_extends.
@@ -64,3 +69,4 @@ Print Assumptions C19_merge_lookup.
 Print Assumptions C19_generated_ok.
 Print Assumptions C19_add_in_place_refuted.
 Print Assumptions C19_read_aliases_refuted.
+Print Assumptions C19_each_message_decodes_its_tags_into_its_own_map.
